@@ -195,6 +195,17 @@ Definition m_fp (n : Z) (keys : list key) (s : mstate) : list Z :=
                      | None => [0]
                      end ++ lz (karr s k) ++ lz (kgrants s k)) keys.
 
+(* a fifo-map batch holds at most one Lock per key - the arrival order at the key mutex is then the
+   issue order - or exactly two Locks of a key that has no entry (the two first calls of a fresh
+   key: one of them is inside afterwards, and it was first) *)
+Definition m_batch_ok (s : mstate) (l : list sop) : bool :=
+  forallb (fun a => match a with
+                    | SLock _ k _ =>
+                        let c := count (fun b => match b with SLock _ k' _ => Z.eqb k k' | _ => false end) l in
+                        (c <=? 1)%nat || ((c =? 2)%nat && negb (present s k))
+                    | _ => true
+                    end) l.
+
 (* ---- cmap.Mutex ---- *)
 Definition c_api (s : cstate) (tainted : list key) (op : sop) : option (list cev) :=
   match op with
@@ -483,7 +494,7 @@ Definition model_agrees (c : case) : bool :=
           end
       | LFifoMap =>
           match follow mstep (m_musts n) (fun _ => []) (m_fp n keys) (fun s _ op => m_api s op)
-                       (fun s => (map (m_stat s) ts, [], entry_count s keys)) keys true (fun _ _ => true) [minit] []
+                       (fun s => (map (m_stat s) ts, [], entry_count s keys)) keys true m_batch_ok [minit] []
                        (idle_stats n) ops obs with
           | Some cands => existsb (fun s => eqb_logs (map (karr s) keys) arr
                                             && eqb_logs (map (kgrants s) keys) gr
@@ -506,7 +517,7 @@ Definition model_agrees (c : case) : bool :=
           end
       | LOuter =>
           match follow ostep (o_musts n) o_opts (o_fp n) (fun s _ op => o_api s op)
-                       (fun s => (map (o_stat s) ts, map (ores s) ts, -1)) keys true (fun _ _ => true) [oinit 1] []
+                       (fun s => (map (o_stat s) ts, map (ores s) ts, Z.of_nat (length (rcs s)))) keys true (fun _ _ => true) [oinit 1] []
                        (idle_stats n) ops obs with
           | Some (_ :: _) => true
           | _ => false
@@ -521,9 +532,10 @@ Definition model_agrees (c : case) : bool :=
 Definition upd_nth {A} (n : nat) (x : A) (l : list A) : list A := set_nth n x l.
 
 Fixpoint oracle_steps (l : lockkind) (keys : list key) (ops : list sop) (obs : list sobs)
-         (done : list Z) (ctxs : list Z) : bool :=
+         (done : list Z) (ctxs : list Z) (sd : bool) : bool :=
   match ops, obs with
   | op :: ops', o :: obs' =>
+      let sd' := sd || match op with SShutdown => negb (so_skip o) | _ => false end in
       let done' := match op with SCancel c => if so_skip o then done else c :: done | _ => done end in
       let ctxs' := match op with
                    | SLock t _ c | SRLock t _ c =>
@@ -536,10 +548,11 @@ Fixpoint oracle_steps (l : lockkind) (keys : list key) (ops : list sop) (obs : l
       && (match l with
           | LCtx => no_dead_waiter (so_st o) ctxs' done' && err_holds_nothing (so_st o) (so_res o)
           | LOuter => err_holds_nothing (so_st o) (so_res o)
+                      && (sd' || owned_entries_obs (so_st o) (so_entries o))
           | _ => true
           end)
       && no_idle_wait keys (so_st o)
-      && oracle_steps l keys ops' obs' done' ctxs'
+      && oracle_steps l keys ops' obs' done' ctxs' sd'
   | _, _ => true
   end.
 
@@ -547,7 +560,7 @@ Definition oracle (c : case) : bool :=
   match c with
   | CScript l n keys ops obs arr gr occ_bad early badcause stuck =>
       negb occ_bad && negb early && negb badcause && negb stuck
-      && oracle_steps l keys ops obs [] (map (fun _ => -1) (zseq n))
+      && oracle_steps l keys ops obs [] (map (fun _ => -1) (zseq n)) false
       && (match l with
           | LFifo | LFifoMap =>
               (length arr =? length gr)%nat
